@@ -222,37 +222,44 @@ def replay_pynorm(case):
 
     import re
 
-    text0 = case["text"]
+    text0, tight0 = case["text"], case.get("tight", case["text"])
     # the model's character classes are concretised further: one quoted name at a time is respelt with characters that Python's own
     # identifier rules treat specially (not NFKC-stable: micro sign, ligature, mathematical bold; word characters that are not identifier
     # characters: superscript, circled digit; plain non-ASCII letters)
     qnames = list(dict.fromkeys(case["qn"])) if "'`" not in text0 else []       # (a literal holding a backtick: no textual respelling)
-    variants = [(text0, True)]
+    variants = [(text0, tight0, True)]
     for k, ex in enumerate(EXOTIC):
         if qnames and ex not in qnames:
             q = qnames[k % len(qnames)]
-            variants.append((text0.replace("`" + q + "`", "`" + ex + "`"), False))
+            variants.append((text0.replace("`" + q + "`", "`" + ex + "`"), tight0.replace("`" + q + "`", "`" + ex + "`"), False))
     for k, ex in enumerate(BACKSLASHED):
         if qnames and ex not in qnames:
             q = qnames[(k + len(text0)) % len(qnames)]
-            variants.append((text0.replace("`" + q + "`", "`" + ex + "`"), False))
+            variants.append((text0.replace("`" + q + "`", "`" + ex + "`"), tight0.replace("`" + q + "`", "`" + ex + "`"), False))
     bad, n = [], 0
-    for text, allforms in variants:
+    for text, tight, allforms in variants:
         spaced = text.replace("(", "( ").replace(")", " )").replace(",", " ,")
-        for form in ((text, spaced, "{" + text + "}", "{ " + spaced + "  }") if allforms else (text, "{ " + spaced + "  }")):
+        forms = [(f, text) for f in ((text, spaced, "{" + text + "}", "{ " + spaced + "  }") if allforms else (text, "{ " + spaced + "  }"))]
+        # the model's TIGHT spelling (keyword operators: no blank where a backtick delimits - not`a b`, x if`a b`else y): the same fragment
+        # in another formatting, so the same normal form; also as the whole brace-quoted fragment, where the keyword opens the fragment
+        if tight != text:
+            forms += [(tight, text), ("{" + tight + "}", text)]
+            if allforms and tight.startswith("g(") and text.startswith("g("):       # the operand of g( ) on its own
+                forms.append(("{" + tight[2:-1] + "}", text[2:-1]))
+        for form, want in forms:
             n += 1
             try:
                 toks = list(sanitize_tokens(tokenize(form)))
                 got = [t.token for t in toks]
-                if got != [text] or toks[0].kind.value != "python":
-                    bad.append({"string": form, "why": "python-normal-form", "observed": got, "expected": [text]})
+                if got != [want] or toks[0].kind.value != "python":
+                    bad.append({"string": form, "why": "python-normal-form", "observed": got, "expected": [want]})
                     continue
                 f = Formula(form + " + zz", _ordering="none")
                 exprs = [[fac.expr for fac in t.factors] for t in f]
-                if exprs != [["1"], [text], ["zz"]]:
-                    bad.append({"string": form, "why": "python-normal-form (factor of the parsed formula)", "observed": exprs, "expected": [["1"], [text], ["zz"]]})
+                if exprs != [["1"], [want], ["zz"]]:
+                    bad.append({"string": form, "why": "python-normal-form (factor of the parsed formula)", "observed": exprs, "expected": [["1"], [want], ["zz"]]})
             except Exception as e:  # noqa
-                bad.append({"string": form, "why": "python-normal-form", "observed": type(e).__name__ + ": " + str(e)[:120], "expected": [text]})
+                bad.append({"string": form, "why": "python-normal-form", "observed": type(e).__name__ + ": " + str(e)[:120], "expected": [want]})
     return bad, n
 
 
@@ -260,7 +267,7 @@ def pynorm_leg(ctx: Ctx, depth: int):
     out = workdir("c15") / "pynorm.ndjson"
     out.unlink(missing_ok=True)
     base = f'SPECIFICATION Spec\nCONSTANTS\n  Emit = TRUE\n  Variant = "fixed"\n  Depth = {depth}\n'
-    cfg = base + "INVARIANT Faithful\nINVARIANT ScanOK\nINVARIANT ScanLossless\nINVARIANT EmitCase\n"
+    cfg = base + "INVARIANT Faithful\nINVARIANT ScanOK\nINVARIANT ScanLossless\nINVARIANT SanitizeLexOK\nINVARIANT EmitCase\n"
     r = run_tlc("MC_PyNorm", cfg, tag="c15p", env={"OUT_FILE": str(out)}, timeout=3000)
     if r.violated:
         ctx.model_violation(r, "MC_PyNorm")
@@ -280,8 +287,24 @@ def pynorm_leg(ctx: Ctx, depth: int):
     if v.violated:
         ctx.model_violation(v, "MC_PyNorm TemplateLaw")
     ctx.add_tlc(v, "python normalisation: restoration through a replacement template is unfaithful exactly on quoted names holding an escape")
+    # a format step that collapses runs of blanks: TLC must refute it, and show that it fails exactly on the expressions holding a string
+    # literal with a run of blanks (SqueezeLaw) - so the family holds such literals
+    v = run_tlc("MC_PyNorm", (base + "INVARIANT Faithful\n").replace('"fixed"', '"squeeze"').replace("Emit = TRUE", "Emit = FALSE"), tag="c15p", timeout=3000)
+    if "Faithful" not in v.violated:
+        raise MachineryError("MC_PyNorm: a formatter that collapses runs of blanks does not violate Faithful - no string literal of the family holds one")
+    v = run_tlc("MC_PyNorm", (base + "INVARIANT SqueezeLaw\n").replace('"fixed"', '"squeeze"').replace("Emit = TRUE", "Emit = FALSE"), tag="c15p", timeout=3000)
+    if v.violated:
+        ctx.model_violation(v, "MC_PyNorm SqueezeLaw")
+    ctx.add_tlc(v, "python normalisation: a formatter that collapses runs of blanks is unfaithful exactly on string literals holding one")
+    # placeholders put into the source text without blanks around them: TLC must refute it - so the family holds quoted names that touch a
+    # word (keyword operators in their tight spelling)
+    v = run_tlc("MC_PyNorm", (base + "INVARIANT SanitizeLexOK\n").replace('"fixed"', '"unpadded"').replace("Emit = TRUE", "Emit = FALSE"), tag="c15p", timeout=3000)
+    if "SanitizeLexOK" not in v.violated:
+        raise MachineryError("MC_PyNorm: unpadded placeholders do not violate SanitizeLexOK - no quoted name of the family touches a word")
     ctx.notes["pynorm_design_errors_refuted"] = ["pinned (aliases)", "pinned-scan (string pattern, quote characters inside names)",
-                                                 "template (quoted names restored as a regex replacement template: backslashes)"]
+                                                 "template (quoted names restored as a regex replacement template: backslashes)",
+                                                 "squeeze (format step collapses runs of blanks: string literals)",
+                                                 "unpadded (placeholder fuses with the word next to a quoted name)"]
     cases = read_emitted(out)
     out.unlink()
     if len(cases) != r.distinct:
@@ -307,7 +330,7 @@ def quoted_leg(ctx: Ctx, maxlen: int):
 
 def run(ctx: Ctx) -> None:
     ctx.rule = ("every character string over the model alphabet up to the bound (replay: token-for-token equality with tokenize()); "
-                "every call expression of MC_PyNorm (identifiers, quoted names, string literals that overlap textually) x 4 spellings; "
+                "every call expression of MC_PyNorm (identifiers, quoted names, string literals that overlap textually, keyword operators) x 4 spellings (+ tight); "
                 "trace: random formulas with unicode quoted names and python fragments, single-space insertions, verbatim names; "
                 "non-trivial = lexes without error into >= 2 (replay) / >= 3 (trace) tokens")
     ctx.trusted = ["lexical classes of characters computed with the regexes tokenize() documents", "ast.parse/ast.dump as the oracle of 'differ only in formatting'",
